@@ -33,6 +33,7 @@ var datas = map[string][]byte{
 	"a": []byte("AAAA-data-a"),
 	"b": []byte("bbbbbbbbbbbbbbbbbbbbbbbb-data-b"),
 	"L": bytes.Repeat([]byte("0123456789abcdef"), 40),
+	"c": []byte("CCCC-data-c"), // same length as a
 }
 
 const cookie = 0x11111111
